@@ -1676,7 +1676,7 @@ fn main() {
     quiet_panics();
     let mut rng = Rng::new(a.seed, 13);
     let mut shapes = Shapes::new();
-    let n_scen = a.budget(60, 600);
+    let n_scen = a.budget(40, 600);
     let k5 = keys(false);
     let k6 = keys(true);
     let mut out_stats = BTreeMap::new();
